@@ -27,7 +27,7 @@ StepRegs(rg, act) ==
       [] act.a \in {"add", "add_by_plus"} -> [rg EXCEPT ![r] = [ex |-> DyAdd(@.ex, Val(act.x)), ab |-> DyAdd(@.ab, DyAbs(Val(act.x)))]]
       [] act.a = "add_block" -> [rg EXCEPT ![r] = [ex |-> DyAdd(@.ex, DyMulInt(Val(act.x), act.rep)),
                                                    ab |-> DyAdd(@.ab, DyMulInt(DyAbs(Val(act.x)), act.rep))]]
-      [] act.a \in {"add_cycle", "lfold", "rfold"} -> [rg EXCEPT ![r] = [ex |-> DyAdd(@.ex, DyMulInt(SumSeq(act.xs, FALSE), act.rep)),
+      [] act.a \in {"add_cycle", "lfold", "rfold", "lfold_plus", "rfold_plus"} -> [rg EXCEPT ![r] = [ex |-> DyAdd(@.ex, DyMulInt(SumSeq(act.xs, FALSE), act.rep)),
                                                    ab |-> DyAdd(@.ab, DyMulInt(SumSeq(act.xs, TRUE), act.rep))]]
       [] act.a = "merge" -> [rg EXCEPT ![r] = [ex |-> DyAdd(rg[r].ex, rg[act.q].ex), ab |-> DyAdd(rg[r].ab, rg[act.q].ab)]]
       [] act.a = "merge_by_plus" -> [rg EXCEPT ![act.t] = [ex |-> DyAdd(rg[r].ex, rg[act.q].ex), ab |-> DyAdd(rg[r].ab, rg[act.q].ab)]]
@@ -56,7 +56,10 @@ KahanStep(e) ==
     /\ maxu' = Max2(maxu, IF fl' = {} THEN Units(e.vals[e.act.r], regs'[e.act.r], prec) ELSE 0)
     /\ cov' = Bump(cov, {"C08.error_bound", "C08.value_semantics", "C08.act." \o e.act.a, "C08.type." \o e.ty}
                         \cup (IF e.act.a \in {"add_block", "add_cycle"} /\ e.act.rep >= 100000 THEN {"C08.long_stream." \o e.ty} ELSE {})
-                        \cup (IF e.act.a \in {"lfold", "rfold"} /\ e.act.rep >= 1000 THEN {"C08.long_" \o e.act.a \o "." \o e.ty} ELSE {})
+                        \cup (IF e.act.a \in {"lfold", "rfold", "lfold_plus", "rfold_plus"} /\ e.act.rep >= 1000 THEN {"C08.long_" \o e.act.a \o "." \o e.ty} ELSE {})
+                        \cup (IF e.act.a \in {"add_block", "add_cycle", "lfold", "rfold"} /\ e.act.rep >= 1000 /\ DySign(regs'[e.act.r].ex) < 0 THEN {"C08.negative_sum_stream"} ELSE {})
+                        \cup (IF e.act.a \in {"add_block", "add_cycle"} /\ e.act.rep >= 1000 /\ DySign(regs'[e.act.r].ab) > 0
+                                 /\ DyLt(regs'[e.act.r].ab, Dy(BigOfInt(1), IF e.ty = "f32" THEN -100 ELSE -900)) THEN {"C08.tiny_magnitude_stream." \o e.ty} ELSE {})
                         \cup (IF e.nreg >= 8 /\ e.act.a \in {"merge", "merge_by_plus"} THEN {"C08.merge_tree"} ELSE {}))
 
 StatStep(e) ==
